@@ -66,7 +66,7 @@ func Alphabet(st *State, number uint64, version string) []Named {
 	_, hasS2 := st.Classes[sh2]
 	a, hasA := st.Contracts[AddrA]
 	_, hasB := st.Contracts[AddrB]
-	_, hasC := st.Contracts[AddrC]
+	cc, hasC := st.Contracts[AddrC]
 
 	add("empty", sd(), nil)
 	if !hasA {
@@ -122,6 +122,15 @@ func Alphabet(st *State, number uint64, version string) []Named {
 			d.ReplacedClasses[AddrA] = &h0
 			add("A.replace->C0", d, nil)
 		}
+	}
+	if hasA && hasC && !a.Class.Equal(&cc.Class) {
+		// two contracts with DIFFERENT classes replaced in one block (they swap): the reverse diff of this block holds
+		// two different previous class hashes
+		d := sd()
+		ac, ccl := a.Class, cc.Class
+		d.ReplacedClasses[AddrA] = &ccl
+		d.ReplacedClasses[AddrC] = &ac
+		add("A<->C.swap-classes", d, nil)
 	}
 	{
 		d := sd()
